@@ -7,7 +7,7 @@ ENGINE = "gensim"
 LEVEL = "exploration"
 EXPECTED_S_PER_RUN = 2.0
 KINDS = ["ode", "statio", "nonstatio"]
-TIERS = {"quick": 400, "thorough": 24000}
+TIERS = {"quick": 400, "thorough": 10000}
 
 RULE = (
     "each run draws 1-2 collocation generators (ODE / stationary 1-D,2-D / space-time 1-D,2-D; uniform or grid; "
